@@ -29,6 +29,10 @@ CLAIMED = {
             "Static decision of DESIGN section 3 C21: every state an integrator can hand back was produced by a path that completes the prescribe/realize/project pipeline after the last state write, "
             "with the projection accuracy taken from getConstraintToleranceInUse() and failures rejecting the step. Holds for every model, accuracy and step sequence that drives these paths; "
             "that projection converges / achieves the tolerance is numerical (C09) and not decided. One genuine violation on the pinned tree is recorded as a known finding."),
+    "C19": ("TYPESTATE analysis of the step-communication status machine (last-status-written per return, dominance, refusal branch always throws) and REACHDEF of the step limit, on both stepTo implementations",
+            "Static decision of the status-machine clauses of C19 (DESIGN section 3): EndOfSimulation <=> FinalTimeHasBeenReturned with the final-time guard, refusal of further stepping, "
+            "each returned status paired with its tabled status write in both sibling implementations, and the internal step limit bounded by min(scheduled, final[, report]) by data flow. "
+            "Holds for every request sequence because it holds on every path; 'exactly at that time', monotonic time and event-window exclusion are value comparisons and are not decided."),
 }
 NA = {
  "C01": "numerical identity between O(n) recursions; no clause is visible in the shape of the code",
